@@ -26,6 +26,9 @@ def impl(case):
         G = build_admg(g, lab)
     except Exception as e:
         return {"vm": "err:build:" + type(e).__name__}
+    if C.warm_decide(case):
+        # query, edit the same object in place, query again (see common.warmup)
+        C.warmup(G, lambda: (valid_mag(G), is_maximal(G), has_adc(G)))
     before = C.snapshot(G)
 
     def call(f):
